@@ -197,7 +197,14 @@ let () =
            | "B64" -> let s = next_str () in
              Printf.printf "%s %s %s\n" id (hex_of_str (b64_encode s))
                (match b64_decode s with None -> "ERR" | Some d -> "OK:" ^ hex_of_str d)
-           | "HOST" -> Printf.printf "%s %s\n" id (hex_of_str (x_to_hostname (next_str ())))
+           | "HOST" -> Printf.printf "%s HOST %s\n" id (hex_of_str (x_to_hostname (next_str ())))
+           | "E" -> let u = next_str () in let p = next_str () in
+             let a = x_encode_auth u p in
+             Printf.printf "%s ENC %s DEC %s\n" id (hex_of_str a)
+               (match x_decode_auth a with None -> "ERR" | Some (du, dp) -> hex_of_str du ^ " " ^ hex_of_str dp)
+           | "X" -> (match x_decode_auth (next_str ()) with
+               | None -> Printf.printf "%s ERR\n" id
+               | Some (du, dp) -> Printf.printf "%s OK %s %s\n" id (hex_of_str du) (hex_of_str dp))
            | _ -> Printf.printf "%s BADKIND\n" id
          with Bad m -> Printf.printf "%s BADLINE %s\n" id m)
       | _ -> Printf.printf "BADLINE %s\n" l)
